@@ -132,21 +132,64 @@ def sid_key(s):
     return ("tuple",) + tuple(s) if isinstance(s, tuple) else (type(s).__name__, s)
 
 
-def canon_md_model(m):
-    """Mirror of canon_md (C11_model.v): the canonical token of a metadata value."""
+MODE = {"leaf": "str", "tag": False}
+
+
+def detect_mode():
+    """Which canonicalisation does the tree under test implement?  Behavioural probes, fail closed."""
+    vals = [3, "3", None, True, 2.5]
+    p = tuple(v for _, v in canonicalize_metadata({f"k{n}": x for n, x in enumerate(vals)}))
+    if p == ("3", "3", "None", "True", "2.5"):
+        MODE["leaf"] = "str"
+    elif p == ("3", "'3'", "None", "True", "2.5"):
+        MODE["leaf"] = "repr"
+    else:
+        raise L.TieBroken(f"unknown canonicalisation of scalar metadata leaves: {p!r}")
+    q = (canonicalize_metadata({"k": [1]})[0][1], canonicalize_metadata({"k": (1,)})[0][1])
+    if q == (("1",), ("1",)):
+        MODE["tag"] = False
+    elif q == (("list", "1"), ("tuple", "1")):
+        MODE["tag"] = True
+    else:
+        raise L.TieBroken(f"unknown canonicalisation of list/tuple metadata: {q!r}")
+    return dict(MODE)
+
+
+def arr_oracle(v):
+    """The real rendering of an ndarray leaf (str(ndarray) before the repair, tolist/dtype/shape after)."""
+    r = canonicalize_metadata({"k": v})
+    return r[0][1]
+
+
+def canon_md_model(m, top=True):
+    """Mirror of canon_md / canon_md2 (C11_model.v): the canonical token of a metadata value."""
     if m is None:
         return ()
     if isinstance(m, dict):
         return tuple((k, canon_val(m[k])) for k in sorted(m))
-    return tuple(canon_val(v) for v in m)
+    pre = (type(m).__name__,) if MODE["tag"] else ()
+    return pre + tuple(canon_val(v) for v in m)
 
 
 def canon_val(v):
     if isinstance(v, dict | list | tuple):
-        return canon_md_model(v)
+        return canon_md_model(v, top=False)
     if isinstance(v, np.ndarray):
-        return str(v)            # the oracle str_arr
-    return str(v)
+        return arr_oracle(v)
+    return str(v) if MODE["leaf"] == "str" else repr(v)
+
+
+def md_equal_mod_seqtype(a, b):
+    """Typed equality of metadata that ignores only the list/tuple distinction."""
+    if isinstance(a, list | tuple) and isinstance(b, list | tuple):
+        return len(a) == len(b) and all(md_equal_mod_seqtype(x, y) for x, y in zip(a, b))
+    if type(a) is not type(b):
+        return False
+    if isinstance(a, dict):
+        return sorted(a) == sorted(b) and all(md_equal_mod_seqtype(a[k], b[k]) for k in a)
+    if isinstance(a, np.ndarray):
+        return a.shape == b.shape and a.dtype == b.dtype and bool(np.all(a == b))
+    return a == b
 
 
 def md_equal(a, b):
@@ -175,7 +218,7 @@ def md_gallina(v, em):
     if isinstance(v, str):
         return f"(MStr string {em.str(v)})"
     if isinstance(v, np.ndarray):
-        return f"(MArr string {em.str(str(v))})"
+        return f"(MArr string {em.str(arr_oracle(v))})"
     if isinstance(v, list | tuple):
         return f"(MSeq string {'true' if isinstance(v, list) else 'false'} [" + "; ".join(md_gallina(x, em) for x in v) + "])"
     if isinstance(v, dict):
@@ -379,6 +422,7 @@ def family(k, rng):
 # ------------------------------------------------------------------------------------------------
 def main(run):
     rng = random.Random(run.seed * 104729 + 11)
+    run.extra["canonicalize_metadata_variant"] = detect_mode()
     nfam = 6 if run.tier == "quick" else 40
     known = {k["id"]: k for k in vlib.load_known_findings("C11")}
     viol, known_inst = [], []
@@ -443,8 +487,13 @@ def main(run):
             if same_sig and really_differ:
                 # a collision: forms with different compiled meaning share a signature
                 if same_mean and strip_md(m1) == strip_md(m2) and not md_equal(md1, md2):
-                    kind = "metadata-array-str" if has_array(md1) or has_array(md2) else "metadata-untyped"
-                    if kind in known:
+                    if md_equal_mod_seqtype(md1, md2):
+                        kind, applies = "metadata-list-vs-tuple", not MODE["tag"]
+                    elif has_array(md1) or has_array(md2):
+                        kind, applies = "metadata-array-str", MODE["leaf"] == "str"
+                    else:
+                        kind, applies = "metadata-untyped", MODE["leaf"] == "str"
+                    if kind in known and applies:
                         known_inst.append((kind, rec))
                         continue
                 rec["expected"] = "different signatures (the forms differ in " + n1 + " / " + n2 + ")"
@@ -480,14 +529,15 @@ def main(run):
     # -- Coq: canon_md and strip evaluated by the model on the same data
     em = L.Emitter()
     body = []
+    mdfun = "md_tok" if MODE["leaf"] == "str" else f"md_tok2 {'true' if MODE['tag'] else 'false'}"
     for n, (a, b, real_eq) in enumerate(coq_md):
         if a is None or b is None:
             continue
         ga, gb = md_gallina(a, em), md_gallina(b, em)
         if real_eq:
-            body.append(f"Example md{n} : md_tok {ga} = md_tok {gb}.\nProof. vm_compute. reflexivity. Qed.")
+            body.append(f"Example md{n} : {mdfun} {ga} = {mdfun} {gb}.\nProof. vm_compute. reflexivity. Qed.")
         else:
-            body.append(f"Example md{n} : md_tok {ga} <> md_tok {gb}.\nProof. vm_compute. discriminate. Qed.")
+            body.append(f"Example md{n} : {mdfun} {ga} <> {mdfun} {gb}.\nProof. vm_compute. discriminate. Qed.")
     files = []
     text = L.HEADER.replace("NArith", "NArith ZArith").replace("Props.C29_model.", "Props.C29_model Props.C11_model.") + \
         "\n".join(em.lines) + "\n\n" + "\n".join(body) + "\n"
@@ -537,8 +587,11 @@ def main(run):
         w = inst[0]
         run.known(f"{kind}: {len(inst)} pairs of forms with different metadata share a signature, e.g. "
                   f"{w['form_1']['mutation']} vs {w['form_2']['mutation']}: {w['form_1']['metadata'][:60]} vs "
-                  f"{w['form_2']['metadata'][:60]}; model theorems C11_metadata_untyped_refuted / "
-                  "C11_signature_collision_from_array_str")
+                  f"{w['form_2']['metadata'][:60]}; model theorems " +
+                  {"metadata-list-vs-tuple": "C11_repaired_sequence_type_refuted / C11_metadata_untyped_refuted "
+                                             "(closed by C11_canon_md2_inj_tagged)",
+                   "metadata-untyped": "C11_metadata_untyped_refuted, C11_signature_collision_untyped",
+                   "metadata-array-str": "C11_signature_collision_from_array_str"}[kind])
     run.extra["known_class_instances"] = len(known_inst)
     run.extra["families"] = nfam
     run.extra["terminal_signature_data_values"] = len(term_pairs)
